@@ -85,7 +85,9 @@ def o04_1(tier):
                         ctx.ensure(ctx.zero(L[row][pos]), f"row {row}: zero for cell {cid}")
                 ctx.ensure(ctx.close(R[row], tens[beid] * kap[beid]), f"row {row}: rhs = tension x total curvature")
         return h
-    return [(f"{s},k={k}", mk(s, k)) for s in ("tri_star", "double_y", "border_fan", "tri_star_ear") for k in ((1,) if tier == "quick" else (0, 1, 3))]
+    out = [(f"{s},k={k}", mk(s, k)) for s in ("tri_star", "double_y", "border_fan", "tri_star_ear") for k in ((1,) if tier == "quick" else (0, 1, 3))]
+    out += [(f"{s}~v{v},k=1", mk(f"{s}~v{v}", 1)) for s in ("tri_star", "double_y", "tri_star_ear") for v in ((1, 2) if tier == "quick" else (1, 2, 3))]
+    return out
 
 
 @obligation("O04.7", ["C04", "C10"], [GM + "solve_system", GM + "add_lagrange_multiplier", "forsys.forsys:ForSys.solve_pressure",
